@@ -17,7 +17,7 @@ RULE = ('values: text over ASCII / Latin-1 / BMP / astral planes with CR, LF, NU
         'Ombott.__call__, Response.copy(); x response classes Response / HTTPResponse / HTTPError; x every status in '
         'http.client.responses for the blacklist. Non-trivial = the value contains a control character or a non-ASCII character or is '
         'not a str; distinct = distinct (entry point, class, repr(value)).')
-REQUIRED = ['third_or_later_value_of_a_header', 'ctl_rejected', 'clean_accepted_and_roundtripped', 'non_ascii_roundtripped', 'multi_value_order_checked', 'blacklist_204',
+REQUIRED = ['multi_valued_blacklist_checked', 'third_or_later_value_of_a_header', 'ctl_rejected', 'clean_accepted_and_roundtripped', 'non_ascii_roundtripped', 'multi_value_order_checked', 'blacklist_204',
             'blacklist_304', 'statuses_checked', 'wsgi_emissions', 'entry_setitem', 'entry_append', 'entry_setdefault', 'entry_attr',
             'entry_ctor_dict', 'entry_ctor_pairs', 'entry_more_headers', 'entry_httperror_options', 'non_str_types']
 ASSUMPTIONS = ['header names are ASCII tokens (the statement speaks of values)',
@@ -325,6 +325,20 @@ def status_unit(ctx, unit):
                 ctx.count('blacklist_204')
             if code == 304:
                 ctx.count('blacklist_304')
+            # the same with two values per header (append): withheld means every value
+            r2 = cls()
+            r2.status = code
+            for k, v in vals.items():
+                r2.headers.append(k, v)
+                r2.headers.append(k, v + '-2')
+            names2 = [k for k, _ in r2.headerlist]
+            ctx.count('multi_valued_blacklist_checked')
+            leaked2 = sorted({k for k in names2 if k in forbidden})
+            if leaked2:
+                ctx.violation(f'forbidden-entity-header-emitted-on-{code}:multi-valued', f'{cls.__name__}({code}) with two values per header: {leaked2}', wit)
+            short = [k for k in vals if k not in forbidden and names2.count(k) != 2]
+            if short:
+                ctx.violation('multi-valued-header-reordered-or-merged', f'{cls.__name__}({code}): {short} not emitted once per value', wit)
         for mode in ('response', 'raised'):
             cur.update(mode=mode, status=code, vals=vals)
             r = call_app(app, make_environ('GET', '/s'))
